@@ -354,6 +354,8 @@ impl Sys {
             let a_max = if diff == "max" { max.wrapping_sub(1) } else { max };
             let a_exp = if diff == "exp" { exp + 1 } else { exp };
             let a_tgt = if diff == "target" { self.names.get(Self::other(tgt_n, &TGTS)) } else { tgt.clone() };
+            // two fields of the same type exchanged in what the user signed
+            let (a_tok, a_tgt) = if diff == "swap_tt" { (a_tgt, a_tok) } else { (a_tok, a_tgt) };
             let a_fn = if diff == "fn" { Symbol::new(e, Self::other(tfn, &["hit", "hit_auth"])) } else { fn_sym.clone() };
             let a_args = if diff == "args" { targs(&user, tfn, x + 1) } else { args_v.clone() };
             let mut subs = Vec::new();
@@ -483,7 +485,7 @@ fn main() {
             let mut t = Trace::create(&output);
             let mut r = StdRng::seed_from_u64(seed);
             let combos = [("permissionless", "Eager"), ("permissioned", "Lazy"), ("lib", "Eager"), ("lib", "Lazy"), ("permissioned", "Lazy")];
-            let diffs = ["token", "max", "exp", "target", "fn", "args", "absent", "noappr", "notgt"];
+            let diffs = ["token", "max", "exp", "target", "fn", "args", "absent", "noappr", "notgt", "swap_tt"];
             for run in 0..runs {
                 let (fl, st) = combos[run % combos.len()];
                 let fund = *pick(&mut r, &[4i64, 30, 1000]);
